@@ -213,7 +213,24 @@ void RunCondVar(Model& md, const Case& c, int k) {
         const auto t0 = Clock::now();
         const auto d = std::chrono::nanoseconds((op.par % 5) * 60);
         auto pred = [&] { return tokens > 0; };
-        switch (op.how % 5) {
+        switch (op.how % 6) {
+          case 5: {
+            // absolute deadline shared by every fiber that draws the same par: equal wake times on purpose
+            const auto deadline = Clock::time_point{} + std::chrono::nanoseconds(400 + (op.par % 3) * 150);
+            const bool r = cv.wait_until(l, deadline, pred);
+            if (r != pred()) {
+              md.Err("wait_until(shared deadline, pred) result differs from the predicate");
+            }
+            if (!r) {
+              ++md.timeouts;
+              if (Clock::now() < deadline) {
+                md.Err("wait_until(shared deadline) timed out before its deadline");
+              }
+            } else {
+              --tokens;
+            }
+            break;
+          }
           case 0:
             if (!pred()) {
               ++md.parked;
@@ -429,6 +446,7 @@ class StdLocks final : public vf::Family {
            "quiescent-deadlock detection; non-trivial = at least one blocking acquire / wait found the resource "
            "unavailable at entry (it had to park or time out); distinct = (program, effective fiber trace)";
   }
+#ifndef VF_NO_RC
   rc::Gen<Case> Gen() const final {
     return rc::gen::exec([]() {
       Case c;
@@ -447,6 +465,7 @@ class StdLocks final : public vf::Family {
       return c;
     });
   }
+#endif
   std::vector<Case> DfsPrograms(int tier) const final {
     // smallest configurations: two fibers, one or two blocking operations each, every kind
     std::vector<Case> out;
